@@ -185,15 +185,20 @@ func indTasks(r *core.Rand) []indTask {
 	// inside the signature (whatever a successful verification leaves behind must not match these)
 	for k := 0; k < 2; k++ {
 		var sc signedCase
-		switch r.Pick(3) {
+		switch r.Pick(5) {
 		case 0:
 			sc = signedLeaseSet2(r, 7, r.Chance(1, 2), 11)
 		case 1:
 			sc = signedMeta(r, 11, r.Chance(1, 2), 7)
+		case 2:
+			sc = signedLeaseSet(r, []int{7, 11}[r.Pick(2)])
+		case 3:
+			sc = signedELS(r, []int{7, 11}[r.Pick(2)], r.Chance(1, 2), 7)
 		default:
 			sc = signedRouterInfo(r, 7)
 		}
-		kind := map[string]string{"rinfo": "router_info.ReadRouterInfo", "leaseset2": "lease_set2.ReadLeaseSet2", "metaleaseset": "meta_leaseset.ReadMetaLeaseSet"}[sc.kind]
+		kind := map[string]string{"rinfo": "router_info.ReadRouterInfo", "leaseset2": "lease_set2.ReadLeaseSet2", "metaleaseset": "meta_leaseset.ReadMetaLeaseSet",
+			"leaseset": "lease_set.ReadLeaseSet", "encleaseset": "encrypted_leaseset.ReadEncryptedLeaseSet"}[sc.kind]
 		p := lib.ByNameCached(kind)
 		intact := sc.bytes
 		damaged := append([]byte(nil), intact...)
